@@ -5,9 +5,9 @@ from props import _fetch
 
 LEVEL = "proof"
 MODULE = "Phil.Props.C08"
-LEVEL_TEXT = "Lean theorems about the merge model in diff mode: the difference as an explicit function of master and sources on nested masters with .multiple definitions (diff_tree_total), minimality (diff_tree_minimal), no empty scope, self-diff empty, diff of the working tree = diff of the sources, restore (restore_tree, _exact, _values, _at_path), fixed point of diff/restore (diff_restore_tree_fixed_point); structural facts for all masters (diff_no_empty_scopes, diff_conforms, diff_split_law); kernel-checked witnesses for findings D10, D42. Tied to /repo by a correspondence run of fetch(diff=True) and of the re-merge; the oracle evaluates the four clauses of the statement on the implementation, incl. masters reached by a route (fetch / format / copy / deepcopy / pickle / reparse of an already used master), the printed difference, phil --diff and the index's get_diff."
-LEVEL_NOTE = 'Closed form excludes .multiple scopes (general theorems + correspondence there). Findings on the unchanged tree: D10 (re-merge reorders a master-provided instance; also for .multiple scopes), D42 (floats equal to ten significant digits).'
-TECHNIQUE = 'Lean 4 closed form of diff / restore on the fetch model + differential correspondence + four-clause oracle'
+LEVEL_TEXT = "Lean theorems about the merge model in diff mode: the difference as an explicit function of master and sources on nested masters with .multiple definitions (diff_tree_total) and with .multiple scopes nested to any depth (fetch_diff_ms_total), minimality (diff_tree_minimal, diff_ms_minimal), no empty scope, self-diff empty (self_diff_ms_empty, master_as_source_diff_empty), diff of the working tree = diff of the sources, restore (restore_tree*, restore_ms_closed, restore_ms_exact), fixed point of diff/restore (diff_restore_tree_fixed_point, diff_restore_ms_fixed_point); kernel-checked witnesses for findings D10 (also on .multiple scopes), D42. Tied to /repo by a correspondence run of fetch(diff=True) and of the re-merge; the oracle evaluates the four clauses of the statement on the implementation, incl. masters reached by a route (fetch / format / copy / deepcopy / pickle / reparse of an already used master), every list spelling incl. the empty list, deprecated parameters, the printed difference, phil --diff and the index's get_diff."
+LEVEL_NOTE = 'On .multiple scopes the working-set laws carry the named rendering-coherence hypothesis CohMS (true on every validated input, sharp only for an artificial %.10g). Findings on the unchanged tree: D10, D42, D47 (deprecated parameters invisible to the difference), D48 ($ re-substitution).'
+TECHNIQUE = 'Lean 4 closed form of diff / restore on the fetch model (incl. .multiple scopes) + differential correspondence + four-clause oracle'
 RULE = ("masters x working parameter sets reachable by fetch from generated sources (added, repeated and template-equal instances of "
         ".multiple objects, choices, Auto/None, non-canonical spellings); non-trivial = the difference is non-empty; "
         "impl-only stream: the same clauses on masters reached by a route from their text (used before, then derived by fetch / "
